@@ -346,6 +346,17 @@ def _run_errors(desc):
         coeff_or_raise('two-spellings-of-one-blade', lambda: alg.multivector(**{sp1: 1, sp2: 2}), {k12: (s1 * 1 + s2 * 2) * sc},
                        f'keywords {sp1}=1 and {sp2}=2 (two spellings of one blade)')
     if alg.graded and d >= 2:
+        # complete grades given in another order than the canonical one: refused, or every value on the blade it was given for
+        g1 = [k for k in alg.bin2canon if bin(k).count('1') == 1]
+        g1r = g1[::-1]
+        g1c = g1[1:] + g1[:1]
+        for tag, ks in (('reversed', g1r), ('rotated', g1c)):
+            vals = [10 * (i + 1) for i in range(len(ks))]
+            want = dict(zip(ks, vals))
+            coeff_or_raise(f'graded-keys-{tag}', lambda ks=ks, vals=vals: alg.multivector(vals, keys=tuple(ks)), want, f'graded mode, complete grade 1 given in {tag} key order')
+            coeff_or_raise(f'graded-keys-{tag}-names', lambda ks=ks, vals=vals: alg.multivector(vals, keys=tuple(alg.bin2canon[k] for k in ks)), want,
+                           f'graded mode, complete grade 1 given in {tag} key order by name')
+            coeff_or_raise(f'graded-keys-{tag}-vector', lambda ks=ks, vals=vals: alg.vector(vals, keys=tuple(ks)), want, f'graded mode, vector() with {tag} keys')
         must_raise('graded-incomplete-grade-mapping', lambda: alg.multivector({1: 2}))
         must_raise('graded-incomplete-grade-mapping-names', lambda: alg.multivector({alg.bin2canon[1]: 2}))
         must_raise('graded-incomplete-grade-vector-mapping', lambda: alg.vector({1: 2}))
